@@ -1,6 +1,8 @@
 mod common;
 mod c14;
 mod c10;
+mod c17;
+mod wire;
 
 fn arg(args: &[String], name: &str, default: &str) -> String {
     args.iter()
@@ -24,6 +26,7 @@ fn main() {
         "version" => println!("{}", pgp::VERSION),
         "c14" => c14::run(&cases, &out, &tier, seed),
         "c10" => c10::run(&cases, &out, &tier, seed),
+        "c17" => c17::run(&cases, &out, &tier, seed),
         other => {
             eprintln!("unknown check {other}");
             std::process::exit(2);
